@@ -247,7 +247,9 @@ func c20ops(s *dp.Schema, paths []string) []c20op {
 		{"json-pretty-qualified", func(b *node.Browser, s *dp.Schema, _ *dp.DNode) (string, error) {
 			return nodeutil.JSONWtr{Pretty: true, QualifyNamespace: true}.JSON(b.Root())
 		}},
-		{"xml", func(b *node.Browser, s *dp.Schema, _ *dp.DNode) (string, error) { return nodeutil.WriteXMLDoc(b.Root(), false) }},
+		{"xml", func(b *node.Browser, s *dp.Schema, _ *dp.DNode) (string, error) {
+			return nodeutil.WriteXMLDoc(b.Root(), false)
+		}},
 		{"export", func(b *node.Browser, s *dp.Schema, _ *dp.DNode) (string, error) {
 			capt := dp.NewCapture(s)
 			err := b.Root().UpsertInto(capt.Node())
